@@ -218,13 +218,33 @@ def run_case(case):
                     "Tm": sens["dTm"] * dvp + 1e-11 * m["Tm"],
                     "vm": sens["dvm"] * dvp + 1e-12}
         worst = 0.0
+        attributed = None
         for q in ("vp", "vm", "Tp", "Tm"):
             d = abs(m[q] - mt[q])
             worst = max(worst, d / tols[q] if tols[q] > 0 else (0.0 if d == 0 else np.inf))
             if d > tols[q]:
-                fail(f"matching-disagrees-{cls}",
+                mech = f"matching-disagrees-{cls}"
+                extra = ""
+                if cls != "detonation" and (m.get("n_hybr_failed") or 0) > 0:
+                    # arbitration by the reference flow: which of the two reaches T_n?
+                    try:
+                        tg = probe.ref_Tn(vw, m["vp"], m["Tp"])[0]
+                        tt_ = probe.ref_Tn(vw, mt["vp"], mt["Tp"])[0]
+                        tolT = 10 * noiseT
+                        if abs(tg - Tn) > tolT and abs(tt_ - Tn) <= tolT:
+                            # C03's known mechanism seen differentially: brentq over v+
+                            # converged to a jump made by non-converged 2x2 solves
+                            mech = "vp-root-search-over-nonconverged-matchings"
+                            extra = (f"; reference flow from the general matching ends at "
+                                     f"{tg / Tn:.6f} T_n, from the template's at "
+                                     f"{tt_ / Tn:.9f} T_n; {m['n_hybr_failed']} hybr "
+                                     f"failures during this findMatching call")
+                            attributed = mech
+                    except (F.RefCapExceeded, F.RefFailed):
+                        pass
+                fail(mech,
                      f"{cls} vw={vw:.6g}: {q} general {m[q]!r} vs template {mt[q]!r} "
-                     f"(diff {d:.2e}, tol {tols[q]:.1e}; branch {m['branch']})", row)
+                     f"(diff {d:.2e}, tol {tols[q]:.1e}; branch {m['branch']}){extra}", row)
                 break
         row["worst_over_tol"] = worst
         classes.append("trivial" if trivial else cls)
@@ -252,7 +272,7 @@ def run_case(case):
         for name, a, b, tt in (("c1", hg[0], ht[0], t1), ("c2", hg[1], ht[1], t2),
                                ("velocityMid", hg[4], ht[4], tm_)):
             if abs(a - b) > tt:
-                fail("boundary-constants-disagree",
+                fail(attributed or "boundary-constants-disagree",
                      f"{cls} vw={vw:.6g}: {name} general {a!r} vs template {b!r} "
                      f"(diff {abs(a - b):.2e}, tol {tt:.1e})", row)
                 break
